@@ -633,6 +633,15 @@ func c09Families() []scaleFamily {
 		}, func(in []byte) { container.FromCbor(in) }},
 		{"bomb-car-section-2^32->container.FromCar", 64, func(n int) []byte { return append(append(carHeader(), uv(1<<32)...), make([]byte, n)...) }, func(in []byte) { container.FromCar(in) }},
 		{"bomb-car-section-32MiB-declared->container.FromCar", 64, func(n int) []byte { return append(append(carHeader(), uv(32<<20)...), make([]byte, n)...) }, func(in []byte) { container.FromCar(in) }},
+		{"bomb-car-section-2^63->container.FromCar", 64, func(n int) []byte { return append(append(carHeader(), uv(1<<63)...), make([]byte, n)...) }, func(in []byte) { container.FromCar(in) }},
+		{"bomb-car-section-2^64-1->container.FromCarReader", 64, func(n int) []byte { return append(append(carHeader(), uv(math.MaxUint64)...), make([]byte, n)...) }, func(in []byte) { container.FromCarReader(bytes.NewReader(in)) }},
+		{"bomb-car-header-2^64-1->container.FromCar", 64, func(n int) []byte { return append(uv(math.MaxUint64), make([]byte, n)...) }, func(in []byte) { container.FromCar(in) }},
+		{"bomb-cbor-bytes-2^64-1-declared->token.FromSealed", 64, func(n int) []byte {
+			return append([]byte{0x5b, 0xff, 0xff, 0xff, 0xff, 0xff, 0xff, 0xff, 0xff}, make([]byte, n)...)
+		}, func(in []byte) { token.FromSealed(in) }},
+		{"bomb-cbor-array-2^63-declared->container.FromCbor", 64, func(n int) []byte {
+			return append([]byte{0x9b, 0x80, 0, 0, 0, 0, 0, 0, 0}, make([]byte, n)...)
+		}, func(in []byte) { container.FromCbor(in) }},
 		{"bomb-car-header-2^63->container.FromCarBase64", 64, func(n int) []byte {
 			return []byte(base64.StdEncoding.EncodeToString(append(uv(1<<63-1), make([]byte, n)...)))
 		}, func(in []byte) { container.FromCarBase64(in) }},
@@ -789,7 +798,7 @@ func c09ScaleSub() *engine.Sub {
 		Name:    "scaling-families-in-isolated-worker",
 		Serial:  false,
 		Replays: 3,
-		Rule:    "31 input families whose size is a parameter (nesting depth of CBOR/JSON lists, maps, tags; nested not/and/any policies, also inside a well-signed delegation; selectors with many segments; long commands, globs, DIDs; CARs with many sections; declared-length bombs for CBOR strings/arrays/maps and CAR sections), each run at sizes 1 KiB, 2 KiB, ... up to the bound, one input per worker subprocess (ulimit -v, 120 s deadline). Oracle: the process does not die, the call does not panic, it terminates before the deadline, and its peak resident memory grows by at most 128 MiB + 1024 x input size; non-trivial = all",
+		Rule:    "36 input families whose size is a parameter (nesting depth of CBOR/JSON lists, maps, tags; nested not/and/any policies, also inside a well-signed delegation; selectors with many segments; long commands, globs, DIDs; CARs with many sections; declared-length bombs for CBOR strings/arrays/maps and CAR sections), each run at sizes 1 KiB, 2 KiB, ... up to the bound, one input per worker subprocess (ulimit -v, 120 s deadline). Oracle: the process does not die, the call does not panic, it terminates before the deadline, and its peak resident memory grows by at most 128 MiB + 1024 x input size; non-trivial = all",
 		Bound: func(t string) string {
 			if t == "thorough" {
 				return "sizes 2^10..2^22 bytes (4 MiB) per family unless the family states a smaller maximum"
@@ -850,7 +859,7 @@ func C09() *engine.Check {
 		Level:    "model_checking",
 		Subs:     []*engine.Sub{c09ShortSub(), c09MutSub(), c09SignedSub(), c09MatchSub(), c09ScaleSub()},
 		Assumptions: []string{
-			"'every input' is covered for all inputs up to 2 (quick) / 3 (thorough) bytes, all distance-1 mutants of 14 valid artefacts, a grammar of well-signed malformed payloads and 31 scaling families up to 256 KiB / 4 MiB; no random inputs are used",
+			"'every input' is covered for all inputs up to 2 (quick) / 3 (thorough) bytes, all distance-1 mutants of 14 valid artefacts, a grammar of well-signed malformed payloads and 36 scaling families up to 256 KiB / 4 MiB; no random inputs are used",
 			"memory clause: peak resident set growth of a fresh worker process <= 128 MiB + 1024 x input length; termination clause: 120 s per input (inputs of at most 4 MiB; the slowest conforming family needs < 5 s)",
 			"time complexity is not part of the property: the quadratic base58 decoding of did.Parse and the O(n*m) glob matcher are only run at sizes where they finish within the deadline",
 		},
